@@ -270,9 +270,10 @@ def part_tokens(ck, total):
             toks = [t[a:b] for k, a, b in cc.scan(t) if k != 'ws']
             ck.require(toks == [LEX[i], LEX[j]], 'separator policy 1 merges %r %r -> %r' % (LEX[i], LEX[j], toks))
     N = int(os.environ.get('C02_DEPTH') or ck.q(4, 5))
-    N2 = int(os.environ.get('C02_CORE_DEPTH') or ck.q(5, 6))
+    N2 = int(os.environ.get('C02_CORE_DEPTH') or ck.q(0, 6))
     run_layer(ck, total, 'tokens_full', NAMES, [0, 1, 2], N, ck.q(50, 400))
-    run_layer(ck, total, 'tokens_core', CORE, [0], N2, ck.q(50, 400))
+    if N2 > N:                       # deeper, narrower layer (thorough only; at depth <= N it is contained in tokens_full)
+        run_layer(ck, total, 'tokens_core', CORE, [0], N2, ck.q(50, 400))
     ck.sample({'tokens': 'id lparen lbracket number rbracket rparen', 'texts': [render([0, 18, 20, 1, 21, 19], p) for p in range(NPOL)]})
     return N, N2
 
@@ -369,7 +370,7 @@ def neighbourhood_job(item):
 
 
 def part_corpus(ck, total):
-    T_ = ck.q(25, 60)
+    T_ = ck.q(20, 60)
     files = corpus_files()
     acc = Acc()
     uniq = {}
